@@ -18,6 +18,8 @@ import (
 // op:   clients "C<i>:<version>:<compression|->" then actions
 //         u<i>:<keyspace text as written, hex>   client i sends USE <text>
 //         q<i>                                    client i sends a data request (forwarded)
+//         e<i>                                    client i PREPAREs a statement and EXECUTEs it (the EXECUTE is the data request)
+//         k                                       every pooled backend connection is lost (the pools reconnect)
 //       keyspaces whose canonical name starts with "missing" do not exist on the backend
 // real: one token per action: USE -> "set:<keyspace named in the reply>" | "err:<message class>" ;
 //       data -> "at:<backend connection keyspace>/<version>/<compression>" | other
@@ -68,7 +70,16 @@ func runKs(op string) (out string) {
 		if rq.Conn.Version != rq.Header.Version {
 			v = fmt.Sprintf("%d!frame-v%d", rq.Conn.Version, rq.Header.Version)
 		}
-		seen[tokenOf(rq)] = fmt.Sprintf("at:%s/%s/%s", hexs(rq.Keyspace), v, rq.Compression)
+		tok := tokenOf(rq)
+		if rq.Frame != nil {
+			switch m := rq.Frame.Body.Message.(type) {
+			case *message.Prepare: // the id names the token, so that the EXECUTE can be told apart
+				return fakecass.Response{Kind: fakecass.RespMsg, Msg: &message.PreparedResult{PreparedQueryId: []byte(fmt.Sprintf("%016d", tokenOfText(m.Query)))}}
+			case *message.Execute:
+				tok, _ = strconv.Atoi(strings.TrimLeft(string(m.QueryId), "0"))
+			}
+		}
+		seen[tok] = fmt.Sprintf("at:%s/%s/%s", hexs(rq.Keyspace), v, rq.Compression)
 		return fakecass.Response{Kind: fakecass.RespMsg, Msg: &message.VoidResult{}}
 	}
 	clients := make([]*e2e.Client, len(defs))
@@ -83,6 +94,13 @@ func runKs(op string) (out string) {
 	var res []string
 	token := 0
 	for _, a := range acts {
+		if a == "k" {
+			for _, ip := range env.IPs {
+				env.Cluster.Node(ip).DropConns(func(c interface{ Registered() bool }) bool { return !c.Registered() })
+			}
+			time.Sleep(150 * time.Millisecond) // the pools reconnect (base delay 20 ms)
+			continue
+		}
 		p := strings.SplitN(a[1:], ":", 2)
 		i, _ := strconv.Atoi(p[0])
 		if i >= len(clients) {
@@ -113,10 +131,30 @@ func runKs(op string) (out string) {
 					res = append(res, "other")
 				}
 			}
-		case 'q':
+		case 'q', 'e':
 			token++
 			q := fmt.Sprintf("INSERT INTO t (k) VALUES (1) /*t%d*/", token)
-			_ = cl.Send(4, &message.Query{Query: q, Options: &message.QueryOptions{Consistency: primitive.ConsistencyLevelOne}})
+			if a[0] == 'e' {
+				_ = cl.Send(5, &message.Prepare{Query: q})
+				pr, err := cl.Recv(4 * time.Second)
+				if err != nil || pr.Frame == nil {
+					res = append(res, "prepare-unanswered")
+					continue
+				}
+				pm, ok := pr.Frame.Body.Message.(*message.PreparedResult)
+				if !ok {
+					// the PREPARE itself is refused when the session cannot be had: the same answer as for a query
+					if m, isErr := pr.Frame.Body.Message.(message.Error); isErr {
+						res = append(res, "notforwarded:"+strings.ReplaceAll(m.GetErrorMessage(), " ", "_"))
+					} else {
+						res = append(res, "prepare-other")
+					}
+					continue
+				}
+				_ = cl.Send(4, &message.Execute{QueryId: pm.PreparedQueryId, ResultMetadataId: pm.ResultMetadataId, Options: &message.QueryOptions{Consistency: primitive.ConsistencyLevelOne}})
+			} else {
+				_ = cl.Send(4, &message.Query{Query: q, Options: &message.QueryOptions{Consistency: primitive.ConsistencyLevelOne}})
+			}
 			r, err := cl.Recv(4 * time.Second)
 			mu.Lock()
 			s, ok := seen[token]
@@ -162,12 +200,28 @@ func genKs(e *emitter, r *rng.R, n int, tier string) {
 			parts = append(parts, fmt.Sprintf("C%d:%d:%s", c, []int{3, 4, 4}[rr.Intn(3)], rr.Pick([]string{"-", "-", "lz4", "snappy"})))
 		}
 		for j := 0; j < 3+rr.Intn(8); j++ {
-			if rr.Chance(1, 2) {
+			switch c := rr.Intn(12); {
+			case c < 5:
 				parts = append(parts, fmt.Sprintf("u%d:%s", rr.Intn(l), hexs(rr.Pick(names))))
-			} else {
+			case c < 9:
 				parts = append(parts, fmt.Sprintf("q%d", rr.Intn(l)))
+			case c < 11:
+				parts = append(parts, fmt.Sprintf("e%d", rr.Intn(l)))
+			default:
+				parts = append(parts, "k")
 			}
 		}
 		ops = append(ops, strings.Join(parts, " "))
 	}
+}
+
+func tokenOfText(q string) int {
+	if i := strings.Index(q, "/*t"); i >= 0 {
+		rest := q[i+3:]
+		if j := strings.Index(rest, "*/"); j >= 0 {
+			n, _ := strconv.Atoi(rest[:j])
+			return n
+		}
+	}
+	return -1
 }
